@@ -248,12 +248,30 @@ fn lib_record(owner: &[u8], t: u16, class: u16, ttl: u32, fs: &[Fv]) -> Option<F
     Some(Record::new(Name::from_octets(owner.to_vec()).ok()?, Class::from_int(class), Ttl::from_secs(ttl), d))
 }
 
+/// The same value behind the other enum of record data (zone file types): its own dispatch code.
+fn lib_zone_record(owner: &[u8], t: u16, class: u16, ttl: u32, fs: &[Fv]) -> Option<Record<Name<Vec<u8>>, domain::rdata::ZoneRecordData<Vec<u8>, Name<Vec<u8>>>>> {
+    use domain::base::rdata::ParseRecordData;
+    let wire = w::compose_fields(fs);
+    let mut buf = vec![0u8; 12];
+    buf.extend_from_slice(&wire);
+    let mut p = Parser::from_ref(&buf[..]);
+    p.advance(12).ok()?;
+    let mut sub = p.parse_parser(wire.len()).ok()?;
+    let d = domain::rdata::ZoneRecordData::<&[u8], ParsedName<&[u8]>>::parse_rdata(Rtype::from_int(t), &mut sub).ok()??;
+    if sub.remaining() != 0 {
+        return None;
+    }
+    let d: domain::rdata::ZoneRecordData<Vec<u8>, Name<Vec<u8>>> = d.try_flatten_into().ok()?;
+    Some(Record::new(Name::from_octets(owner.to_vec()).ok()?, Class::from_int(class), Ttl::from_secs(ttl), d))
+}
+
 struct Obs {
     pointers: u64,
     failed_pushes: u64,
     ok_pushes: u64,
     max_len: usize,
     case_changed_by_compression: u64,
+    zone_record_pushes: u64,
 }
 
 /// Full verification of the octets against the model.
@@ -521,12 +539,20 @@ fn run_seq<T: TargetKind>(c: &mut Ctx, fam: &str, idx: u64, rng: &mut Rng, size_
                 let class = *rng.pick(&[1u16, 1, 1, 3, 4]);
                 let ttl = match rng.below(4) { 0 => 0, 1 => u32::MAX >> 1, _ => rng.u32() >> 1 };
                 let Some(rec) = lib_record(&owner, t, class, ttl, &fs) else { continue };
-                let r = match &mut b {
-                    B::An(x) => { if rng.bool() { x.push(&rec) } else { x.push_ref(&rec) } }
-                    B::Au(x) => x.push(&rec),
-                    B::Ad(x) => x.push(&rec),
+                // one push in four goes through ZoneRecordData instead of AllRecordData
+                let zrec = if rng.chance(1, 4) { lib_zone_record(&owner, t, class, ttl, &fs) } else { None };
+                let r = match (&mut b, &zrec) {
+                    (B::An(x), Some(z)) => x.push(z),
+                    (B::Au(x), Some(z)) => x.push(z),
+                    (B::Ad(x), Some(z)) => x.push(z),
+                    (B::An(x), None) => { if rng.bool() { x.push(&rec) } else { x.push_ref(&rec) } }
+                    (B::Au(x), None) => x.push(&rec),
+                    (B::Ad(x), None) => x.push(&rec),
                     _ => unreachable!(),
                 };
+                if zrec.is_some() {
+                    obs.zone_record_pushes += 1;
+                }
                 trace.push(format!("push({}, {} {}, rdlen {}) -> {}", w::name_text(&owner), w::type_name(t), t, w::compose_fields(&fs).len(), if r.is_ok() { "ok" } else { "err" }));
                 if r.is_ok() {
                     items.push(Item { section: cur, owner, rtype: t, class, ttl, rdata: w::compose_fields_lower_all(&fs) });
@@ -768,7 +794,7 @@ fn run_edge<T: TargetKind>(c: &mut Ctx, fam: &str, idx: u64, rng: &mut Rng, obs:
 
 pub fn run(c: &mut Ctx) {
     c.families(2);
-    let mut obs = Obs { pointers: 0, failed_pushes: 0, ok_pushes: 0, max_len: 0, case_changed_by_compression: 0 };
+    let mut obs = Obs { pointers: 0, failed_pushes: 0, ok_pushes: 0, max_len: 0, case_changed_by_compression: 0, zone_record_pushes: 0 };
     let fam = "edge";
     let total = c.total(12_000, 1_500_000);
     for idx in c.cases(fam, total) {
@@ -852,6 +878,7 @@ pub fn run(c: &mut Ctx) {
     c.count("failed_pushes", obs.failed_pushes);
     c.count("ok_pushes", obs.ok_pushes);
     c.count("owner_case_changed_by_compression", obs.case_changed_by_compression);
+    c.count("pushes_through_ZoneRecordData", obs.zone_record_pushes);
     if !c.replaying() {
         c.floor("pointers_emitted", 100);
         c.floor("failed_pushes", 100);
@@ -862,5 +889,6 @@ pub fn run(c: &mut Ctx) {
         c.floor("edge_hard_boundary", 100);
         c.floor("edge_push_limit", 100);
         c.floor("edge_stream_65536", 10);
+        c.floor("pushes_through_ZoneRecordData", 100);
     }
 }
